@@ -422,6 +422,11 @@ func atomStringRaw(a Atom) string {
 					}
 				}
 			}
+			if _, xc := b.X.(*ssa.Const); !xc {
+				if _, yc := b.Y.(*ssa.Const); !yc && (op == token.LSS || op == token.LEQ) {
+					return Desc(b.Y) + " " + swapOp(op).String() + " " + Desc(b.X)
+				}
+			}
 			x, y := Desc(b.X), Desc(b.Y)
 			// constants to the right
 			if _, ok := b.X.(*ssa.Const); ok {
